@@ -12,6 +12,11 @@ real TLS servers (stdlib ssl over MemoryBIO) on the TLS ports, plain origins els
 `upstream_auth` is also changed at RUNTIME between items of a conversation (injected driver action that fires once all
 earlier items are answered; later items are sent only afterwards); every credential ever configured in the case is searched.
 
+Client replay sub-workload (~12% of the cases): flows recorded under upstream / regular / reverse / transparent / socks5 mode
+(http and https, recorded inside a CONNECT tunnel or not) are replayed through the real clientplayback.ReplayHandler (its
+HttpLayer driven sans-io, hooks delivered to the real UpstreamAuth) while options.mode[0] is each of upstream / regular /
+reverse / transparent / socks5; same oracle, with "configured proxy / reverse target" taken from the CURRENT mode.
+
 Monitor (M2, wire boundary, independent RFC 9112 reader + stdlib TLS as decryptor): the base64 credential and its raw
 user / password strings are searched in
   search.conn        every byte written to every upstream connection (ciphertext included),
@@ -39,7 +44,7 @@ LEVEL = "exploration"
 ENGINE = "sansio"
 BUDGET = {"quick": (350, 18), "thorough": (40000, 220)}
 WORKERS = {"quick": 4, "thorough": 16}
-REQUIRED = ["connect.answered_by_addon_2xx", "connect.refused_by_addon", "upstream.closes_after_response", "tunnel.reconnected", "hook.server_disconnected", "option_change.unset_to_set", "option_change.set_to_other", "option_change.set_to_unset", "option_change.applied", "search.conn", "search.tunnel", "search.tls_plain", "cred.in_connect_head", "cred.in_plain_to_proxy", "cred.to_reverse_target", "forwarded.no_cred_expected"]
+REQUIRED = ["replay.cases", "replay.forwarded", "replay.cred_to_proxy", "connect.answered_by_addon_2xx", "connect.refused_by_addon", "upstream.closes_after_response", "tunnel.reconnected", "hook.server_disconnected", "option_change.unset_to_set", "option_change.set_to_other", "option_change.set_to_unset", "option_change.applied", "search.conn", "search.tunnel", "search.tls_plain", "cred.in_connect_head", "cred.in_plain_to_proxy", "cred.to_reverse_target", "forwarded.no_cred_expected"]
 TECHNIQUE = "runtime monitoring: sans-io conversations with real addons, unique-token search on every wire / tunnel / decrypted stream"
 RULE = (
     "case = (mode, upstream_auth timeline: initially unset or a unique random credential, 0-2 runtime changes between items "
@@ -491,14 +496,144 @@ def run_case(ctx, tctx, ua, chain):
     return sig, auth_on and reached > 0, sample
 
 
+REC_MODES = ["upstream:http://proxy.test:8080", "upstream:http://oldproxy.test:3128", "upstream:https://proxy.test:8443", "regular",
+             "reverse:http://target.test:80", "reverse:http://oldtarget.test:80", "transparent", "socks5"]
+CUR_MODES = ["upstream:http://proxy.test:8080", "upstream:https://proxy.test:8443", "regular", "regular", "reverse:http://target.test:80",
+             "reverse:https://target.test:443", "transparent", "socks5"]
+
+
+def classify_replay(rec, cur, conn_addr, cur_target):
+    """Mechanism from the history: mode the flow was recorded in, mode mitmproxy runs in now, where the credential went."""
+    if rec.startswith("upstream") and not cur.startswith("upstream"):
+        return "client-replay-of-flow-recorded-in-upstream-mode-while-not-running-in-upstream-mode"
+    if rec.startswith("reverse") and (cur_target is None or conn_addr != cur_target):
+        return "client-replay-of-flow-recorded-in-reverse-mode-to-a-host-that-is-not-the-current-reverse-target"
+    return None
+
+
+def run_replay_case(ctx, tctx, ua, chain):
+    """Client replay: flows recorded under one mode are replayed through the real clientplayback.ReplayHandler (its HttpLayer is
+    driven sans-io, hooks go to the real UpstreamAuth) while options.mode[0] is another mode. Same oracle as for live traffic."""
+    from mitmproxy.addons.clientplayback import ReplayHandler
+    from mitmproxy.proxy import mode_specs
+    from mitmproxy.test import tflow
+
+    r = ctx.rng
+    rec, cur = r.choice(REC_MODES), r.choice(CUR_MODES)
+    user = "u" + "".join(r.choice(ALNUM) for _ in range(9))
+    pw = "p" + "".join(r.choice(ALNUM) for _ in range(11))
+    cred = f"{user}:{pw}"
+    needles = [base64.b64encode(cred.encode()), user.encode(), pw.encode()]
+    tctx.options.update(upstream_auth=cred, mode=[cur], connection_strategy=r.choice(["eager", "lazy"]), ssl_insecure=True)
+    cur_proxy = (PROXY_HTTPS if "https" in cur else PROXY_HTTP) if cur.startswith("upstream") else None
+    cur_target = (TARGET_HTTPS if "https" in cur else TARGET_HTTP) if cur.startswith("reverse") else None
+    ctx.count("replay.cases")
+
+    def responder(k, msg, peer):
+        m = TAG.search(msg["target"])
+        tag = m.group(0) if m else b"none"
+        return b"HTTP/1.1 200 OK\r\nx-tag: " + tag + b"\r\nContent-Length: 2\r\n\r\nok", False
+
+    def tunnel_factory(msg):
+        o = P.OriginPeer(responder)
+        return P.TlsServerPeer(o) if msg["target"].rsplit(b":", 1)[-1] in (b"443", b"8443") else o
+
+    def server_factory(drv, conn):
+        addr = tuple(conn.address[:2])
+        p = P.ProxyPeer(responder, None, tunnel_factory) if addr in (PROXY_HTTP, PROXY_HTTPS) else P.OriginPeer(responder)
+        drv.connected(conn)
+        return P.TlsServerPeer(p) if addr[1] in TLS_PORTS else p
+
+    seen = set()
+    forwarded = 0
+    flows_desc = []
+    for k in range(r.choice([1, 1, 2, 3])):
+        tag = "t%d-%06x" % (k, r.getrandbits(24))
+        scheme = "https" if r.random() < 0.3 else "http"
+        if rec.startswith("reverse") and r.random() < 0.7:
+            host, port = ("oldtarget.test" if "oldtarget" in rec else "target.test"), 80
+            scheme = "http"
+        else:
+            host = r.choice(HOSTS)
+            port = r.choice([443, 8443] if scheme == "https" else [80, 80, 8080])
+        f = tflow.tflow()
+        f.request.host, f.request.port, f.request.scheme = host, port, scheme
+        f.request.path = "/" + tag
+        f.request.headers.clear()
+        f.request.headers["Host"] = authority(host, port, scheme)
+        f.request.content = r.choice([b"", b"b:" + tag.encode()])
+        f.client_conn.proxy_mode = mode_specs.ProxyMode.parse(rec)
+        tunnelled = rec.startswith("upstream") and r.random() < 0.3
+        if tunnelled:
+            ua.http_connected(f)  # the flow was recorded inside a CONNECT tunnel of that client connection
+        f.is_replay = "request"  # what ClientPlayback.start_replay does
+        flows_desc.append((tag, scheme, host, port, "tunnelled" if tunnelled else "direct"))
+        h = ReplayHandler(f, tctx.options)
+        d = LifecycleDriver(lambda c, h=h: h.layer, client=h.layer.context.client, options=tctx.options, rng=r, addons=chain,
+                            server_factory=server_factory, schedule=r.choice(["random", "fifo"]), max_steps=2000)
+        d.context = h.layer.context
+        d.start()
+        d.run()
+        d.teardown()
+        if d.budget_exceeded:
+            ctx.count("inconclusive_cases")
+            return None
+        for e in d.exceptions:
+            ctx.seen("layer_exceptions", f"{e[0]}@{e[1]}")
+        ctx.seen("replay_hook_sequences", ",".join(d.hook_names())[:200])
+        witness = {"replay": True, "recorded_mode": rec, "current_mode": cur, "upstream_auth": cred, "flows": flows_desc, "hooks": d.hook_names()}
+        for conn in d.servers:
+            raw = bytes(d.out[conn])
+            peer = d.peers.get(conn)
+            addr = tuple(conn.address[:2])
+            ctx.count("search.conn")
+            app, inner_peer = raw, peer
+            if isinstance(peer, P.TlsServerPeer):
+                if any(n in raw for n in needles):
+                    ctx.violation("credential-in-tls-ciphertext", {**witness, "conn": repr(addr)}, classify_replay(rec, cur, addr, cur_target))
+                app, inner_peer = peer.plaintext(), peer.inner
+                ctx.count("search.tls_plain")
+            msgs, payload, rest = messages_outside_tunnel(app)
+            legit = (cur_proxy is not None and addr == cur_proxy) or (cur_target is not None and addr == cur_target)
+            for m, mraw in msgs:
+                if TAG.search(mraw):
+                    forwarded += 1
+                if any(n in mraw for n in needles):
+                    if legit:
+                        seen.add("proxy" if cur_proxy else "reverse-target")
+                        ctx.count("replay.cred_to_proxy" if cur_proxy else "replay.cred_to_reverse_target")
+                    else:
+                        seen.add("other-conn")
+                        ctx.violation("credential-in-replayed-request-to-non-proxy-connection", {**witness, "conn": repr(addr), "bytes": mraw[:400]}, classify_replay(rec, cur, addr, cur_target))
+            hidden = [rest]
+            if payload is not None:
+                ctx.count("search.tunnel")
+                hidden.append(payload)
+                t = getattr(inner_peer, "tunnel", None)
+                if isinstance(t, P.TlsServerPeer):
+                    hidden.append(t.plaintext())
+                    ctx.count("search.tls_plain")
+                if TAG.search(payload) or (isinstance(t, P.TlsServerPeer) and TAG.search(t.plaintext())):
+                    forwarded += 1
+            for data in hidden:
+                if data and any(n in data for n in needles):
+                    seen.add("tunnel")
+                    ctx.violation("credential-in-replayed-request-inside-tunnel", {**witness, "conn": repr(addr), "bytes": data[:400]}, classify_replay(rec, cur, addr, cur_target))
+    if forwarded:
+        ctx.count("replay.forwarded", forwarded)
+    sig = ("replay", rec.split("//")[0] + ("-old" if "old" in rec else ""), cur.split("//")[0], tuple(sorted({(x[1], x[4]) for x in flows_desc})), tuple(sorted(seen)))
+    return sig, forwarded > 0, {"replay": True, "recorded_mode": rec, "current_mode": cur, "flows": flows_desc, "credential_seen_in": sorted(seen)}
+
+
 def run(ctx):
     tctx, addons = sansio.addon_context(UpstreamAuth, TlsConfig)
     ua, ta = addons[2], addons[3]
     chain = [addons[1], ua, TlsStartOnly(ta)]
-    keep = {k: getattr(tctx.options, k) for k in ("upstream_auth", "connection_strategy", "ssl_insecure")}
+    keep = {k: getattr(tctx.options, k) for k in ("upstream_auth", "connection_strategy", "ssl_insecure", "mode")}
     try:
         for i in ctx.cases():
-            res = ctx.guard(run_case, ctx, tctx, ua, chain, what="c24 case")
+            replay = ctx.rng.random() < 0.12
+            res = ctx.guard(run_replay_case if replay else run_case, ctx, tctx, ua, chain, what="c24 replay case" if replay else "c24 case")
             if res is None:
                 ctx.case(("aborted",), False)
                 continue
